@@ -301,7 +301,7 @@ module and leave `q` alone: the new relation module is the image of the old one 
 every row of `q` is mapped by the same `φ`. -/
 theorem colswap_spec (s s' : St) (i j : Nat) (hs : s.small = true)
     (hi : i < s.gens.length) (hj : j < s.gens.length) (h : s.colswap i j = some s') :
-    s'.gens = s.gens ∧ s'.h = s.h ∧
+    s'.gens = s.gens ∧ s'.h = s.h ∧ s'.rows.length = s.rows.length ∧
     ∃ φ : (Fin s.gens.length → ZMod s.h) ≃ₗ[ZMod s.h] (Fin s.gens.length → ZMod s.h),
       RowsMapped s.h s.gens.length φ s.q s'.q ∧
       rowSpan s.h s.gens.length s'.rows = (rowSpan s.h s.gens.length s.rows).map φ.toLinearMap := by
@@ -326,8 +326,8 @@ theorem colswap_spec (s s' : St) (i j : Nat) (hs : s.small = true)
         have hsm2 : s2.small = true := small_of_sameFrame hP2.1 hsm1
         have hP3 : RowEquiv s1 s3 := hP2.trans (normalize_spec s2 s3 j j hsm2 h3)
         have hP4 : RowEquiv s1 s' := hP3.trans (zeroToH_spec s3 s' j h)
-        obtain ⟨⟨e1, e2, e3, _, _, _, _⟩, hspan⟩ := hP4
-        refine ⟨e2, e3, colSwapEquiv s.h s.gens.length ⟨i, hi⟩ ⟨j, hj⟩, ?_, ?_⟩
+        obtain ⟨⟨e1, e2, e3, _, _, _, e7⟩, hspan⟩ := hP4
+        refine ⟨e2, e3, by rw [e7]; exact hmr.1, colSwapEquiv s.h s.gens.length ⟨i, hi⟩ ⟨j, hj⟩, ?_, ?_⟩
         · rw [e1]; exact hmq
         · have : rowSpan s.h s.gens.length s'.rows = rowSpan s.h s.gens.length rows1 := hspan
           rw [this]
